@@ -40,12 +40,19 @@ Proj(e) ==
                 [] OTHER -> <<e.op>>
   IN IF "obs" \in DOMAIN e THEN <<base, ObsP(e.obs)>> ELSE <<base>>
 
+\* GenericWriteStorage::remove (class "gremove" in the trace) is a removal that reports no result
+Same(m, r) ==
+  IF r.op = "SOp" /\ r.cls = "gremove"
+  THEN m.op = "SOp" /\ m.cls = "remove" /\ m.s = r.s /\ m.h = r.h
+       /\ ("obs" \in DOMAIN m) = ("obs" \in DOMAIN r) /\ (("obs" \in DOMAIN m) => ObsP(m.obs) = ObsP(r.obs))
+  ELSE Proj(m) = Proj(r)
+
 \* compare the model's events for one op with the trace from line ll on; returns [l, bad]
 RECURSIVE Cmp(_, _, _, _)
 Cmp(evs, j, ll, bad) ==
   IF j > Len(evs) THEN [l |-> ll, bad |-> bad]
   ELSE IF ll > Len(Rec) THEN [l |-> ll, bad |-> bad + 1]
-  ELSE IF Proj(evs[j]) = Proj(Rec[ll]) THEN Cmp(evs, j + 1, ll + 1, bad)
+  ELSE IF Same(evs[j], Rec[ll]) THEN Cmp(evs, j + 1, ll + 1, bad)
   \* the harness skips a restricted lookup when the storage has no item to ask from
   ELSE IF evs[j].op = "SOp" /\ evs[j].cls \in {"read", "write"} /\ (Rec[ll].op # "SOp" \/ Rec[ll].h # evs[j].h \/ Rec[ll].cls # evs[j].cls)
        THEN Cmp(evs, j + 1, ll, bad)
